@@ -42,14 +42,21 @@ def StepFact (cx : Ctx) (pre : List Conn) (s : RState) (y : Nat) (js : JStep) (e
     (⟨y, js.walk, js.dist⟩ : NTD) ∈ cx.ds.rfootOf e.depStop ∧ js.walk ≤ cx.p.maxTransfer ∧
     s.lab y = e.dep - js.walk - e.effWait cx.p.minWait
 
-def AccFact (pre : List Conn) (s : RState) (y : Nat) (a : JStep) : Prop :=
-  ∃ e x, a.enter = some e ∧ a.exit = some x ∧ RideFact pre s e x ∧ e.depStop = y
+/-- the acceptance tests a boarding kept for an access stop has passed (departure-time queries):
+    not before the requested departure, and within the first-waiting cap unless the cap is
+    smaller than the minimum waiting time in force -/
+def AccAccepted (cx : Ctx) (y : Nat) (e : Conn) : Prop :=
+  cx.depT ≠ -1 → ∃ ac, cx.nodesAccess y = some ac ∧ cx.depT ≤ e.dep - ac.time - e.effWait cx.p.minWait ∧
+    (cx.p.maxFirstWait < e.effWait cx.p.minWait ∨ e.dep - cx.depT - ac.time ≤ cx.p.maxFirstWait)
+
+def AccFact (cx : Ctx) (pre : List Conn) (s : RState) (y : Nat) (a : JStep) : Prop :=
+  ∃ e x, a.enter = some e ∧ a.exit = some x ∧ RideFact pre s e x ∧ e.depStop = y ∧ AccAccepted cx y e
 
 structure RInv (cx : Ctx) (pre : List Conn) (s : RState) : Prop where
   exit : ∀ T x, s.exitC T = some x → ExitFact pre s T x
   step : ∀ y e, (s.steps y).enter = some e → StepFact cx pre s y (s.steps y) e
   init : ∀ y, (s.steps y).enter = none → s.steps y = (RState.init cx).steps y ∧ s.lab y = (RState.init cx).lab y
-  acc : ∀ y a, s.acc y = some a → AccFact pre s y a
+  acc : ∀ y a, s.acc y = some a → AccFact cx pre s y a
 
 theorem RideFact.mono {pre pre' : List Conn} {s s' : RState} {e x : Conn}
     (h : RideFact pre s e x) (hp : ∀ a ∈ pre, a ∈ pre') (hl : ∀ y, s.lab y ≤ s'.lab y) : RideFact pre' s' e x :=
@@ -95,7 +102,7 @@ theorem RInv.updStep {cx : Ctx} {pre : List Conn} {s : RState} (h : RInv cx pre 
     exact ⟨e', x, a1, a2, a3.mono (fun _ m => m) hl, a4⟩
 
 theorem RInv.updAcc {cx : Ctx} {pre : List Conn} {s : RState} (h : RInv cx pre s)
-    (y : Nat) (a : JStep) (ha : AccFact pre s y a) :
+    (y : Nat) (a : JStep) (ha : AccFact cx pre s y a) :
     RInv cx pre { s with acc := upd s.acc y (some a) } where
   exit := h.exit
   step := h.step
@@ -152,12 +159,26 @@ theorem revFootAcc_keeps {cx : Ctx} {pre : List Conn} {s s1 : RState} {c x : Con
   · rename_i hacc
     refine ⟨?_, k.2.1, k.2.2⟩
     apply k.1.updAcc
-    have hself : f.stop = c.depStop := by
-      simp only [revAccAccept, Bool.and_eq_true, decide_eq_true_eq] at hacc
-      exact hacc.1.1.1
-    refine ⟨c, x, rfl, ?_, b.ride h _ k.2.2, hself.symm⟩
-    show s1.exitC c.trip = some x
-    rw [k.2.1]; exact b.hx
+    simp only [revAccAccept, Bool.and_eq_true, Bool.or_eq_true, decide_eq_true_eq] at hacc
+    have hself : f.stop = c.depStop := hacc.1.1.1
+    refine ⟨c, x, rfl, ?_, b.ride h _ k.2.2, hself.symm, ?_⟩
+    · show s1.exitC c.trip = some x
+      rw [k.2.1]; exact b.hx
+    · intro hd
+      have h3 := hacc.1.2
+      have h4 := hacc.2
+      rcases h3 with h3 | h3
+      · exact absurd h3 hd
+      · cases hna : cx.nodesAccess c.depStop with
+        | none => rw [hna] at h3; simp at h3
+        | some ac =>
+          rw [hna] at h3 h4
+          simp only [Option.any_some, decide_eq_true_eq] at h3 h4
+          refine ⟨ac, by rw [hself]; exact hna, by omega, ?_⟩
+          rcases h4 with (h4 | h4) | h4
+          · exact absurd h4 hd
+          · exact Or.inl h4
+          · exact Or.inr h4
   · exact k
 
 /-- one footpath of the boarding part -/
